@@ -111,15 +111,14 @@ func (p *parser) endsInANumber(u *Url, input string) bool {
 	return false
 }
 
-// errIPv4NumberInvalidDigit is the plain failure of the IPv4 number parser for a part that is not a number.
-// It is not a validation error by itself; the caller decides what to record.
+// errIPv4NumberEmpty and errIPv4NumberInvalidDigit are the plain failures of the IPv4 number parser.
+// They are not validation errors by themselves; the caller decides what to record.
+var errIPv4NumberEmpty = goerrors.New("empty IPv4 number")
 var errIPv4NumberInvalidDigit = goerrors.New("IPv4 number contains a code point that is not a digit of its radix")
 
 func (p *parser) parseIPv4Number(u *Url, input string) (number int64, validationError bool, err error) {
 	if input == "" {
-		if err = p.handleError(u, errors.IPv4EmptyPart, true); err != nil {
-			return
-		}
+		return 0, false, errIPv4NumberEmpty
 	}
 	R := 10
 	digits := ASCIIDigit
